@@ -207,6 +207,20 @@ func (e *metaEnv) newBundle(stores context2.Stores, repo, id string, consumable 
 	return core.NewBundle(opts...)
 }
 
+// newReaderBundle is the bundle object of a client that only knows repository and bundle id (a download):
+// no descriptor is given, the leaf size and the rest must come from the stored descriptor.
+func (e *metaEnv) newReaderBundle(stores context2.Stores, repo, id string, consumable storage.Store) *core.Bundle {
+	opts := []core.BundleOption{
+		core.Repo(repo), core.ContextStores(stores), core.BundleID(id), core.Logger(zap.NewNop()),
+		core.ConcurrentFileUploads(e.conc), core.ConcurrentFileDownloads(e.conc), core.ConcurrentFilelistDownloads(e.conc),
+		core.BundleWithRetry(false),
+	}
+	if consumable != nil {
+		opts = append(opts, core.ConsumableStore(consumable))
+	}
+	return core.NewBundle(opts...)
+}
+
 func (e *metaEnv) listOpts() []core.Option {
 	var o []core.Option
 	if e.batch > 0 {
@@ -572,7 +586,7 @@ func (m *metaRun) download(stores context2.Stores, id int, sel []string, files [
 	ctx := context.Background()
 	dir := e.scratch("dst")
 	dest := localStore(dir)
-	b := e.newBundle(stores, m.repoOf(id), e.ksuidFor(id), dest)
+	b := e.newReaderBundle(stores, m.repoOf(id), e.ksuidFor(id), dest)
 	var err error
 	if selective {
 		set := map[string]bool{}
@@ -622,6 +636,31 @@ func (m *metaRun) download(stores context2.Stores, id int, sel []string, files [
 		}
 	}
 	_ = os.RemoveAll(dir)
+	// the single-file download of one of the files (the smallest path, and the largest)
+	if len(files) > 0 {
+		names := make([]string, 0, len(files))
+		for _, f := range files {
+			names = append(names, f.P)
+		}
+		sort.Strings(names)
+		for _, name := range []string{names[0], names[len(names)-1]}[:1+btoi(len(names) > 1)] {
+			one := e.scratch("one")
+			ob := e.newReaderBundle(stores, m.repoOf(id), e.ksuidFor(id), localStore(one))
+			if err := core.PublishFile(ctx, ob, name); err != nil {
+				m.bad("downloadfile/error", "ok", err.Error(), fmt.Sprintf("bundle %d file %s", id, name))
+			} else if gb, rerr := ioutil.ReadFile(filepath.Join(one, filepath.FromSlash(name))); rerr != nil || !bytes.Equal(gb, exp[name]) {
+				m.bad("downloadfile/wrong-bytes", len(exp[name]), len(gb), fmt.Sprintf("bundle %d file %s", id, name))
+			}
+			_ = os.RemoveAll(one)
+		}
+	}
+}
+
+func btoi(b bool) int {
+	if b {
+		return 1
+	}
+	return 0
 }
 
 // readDir returns the data files and the .datamon metadata files of a directory.
